@@ -50,41 +50,46 @@ Theorem C19_fans_legacy_name_refuted :
 Proof. exact fans_name_refuted. Qed.
 Print Assumptions C19_fans_legacy_name_refuted.
 
-(* which fan files are looked at: fan files directly below hwmonN, or (only when there is none) below hwmonN/device.
-   Layouts with one nesting only: every listed fan is reported *)
-Theorem C19_fans_tree_values : forall direct nested,
-  forallb kfanchip_ok direct = true -> forallb kfanchip_ok nested = true ->
-  fan_entries direct = [] \/ fan_entries nested = [] ->
-  exists d, sensors_fans_tree true (fan_entries direct) (fan_entries nested) = Val d /\
-    forall n, dict_get n d = match spec_fans_of n (direct ++ nested) with [] => None | l => Some l end.
-Proof. exact fans_tree_values. Qed.
+(* fans of both directory nestings: [tagged] is the sorted union of the chips whose fan files sit directly below
+   hwmonN (false) and below hwmonN/device (true); every listed fan of either nesting is reported *)
+Theorem C19_fans_tree_values : forall tagged : list (bool * kfanchip),
+  forallb kfanchip_ok (map snd tagged) = true ->
+  exists d, sensors_fans true (fan_entries (map snd tagged)) = Val d /\
+    forall n, dict_get n d = match spec_fans_of n (map snd tagged) with [] => None | l => Some l end.
+Proof. exact (fun tagged H => fans_values true (map snd tagged) H (or_introl eq_refl)). Qed.
 Print Assumptions C19_fans_tree_values.
 
-(* known finding: with both nestings present the fans below device/ are silently left out *)
-Theorem C19_fans_mixed_nesting_refuted :
-  exists direct nested d, forallb kfanchip_ok direct = true /\ forallb kfanchip_ok nested = true /\
-    sensors_fans_tree true (fan_entries direct) (fan_entries nested) = Val d /\
+(* the code before commit 1b69de5 (device/ globbed only when no direct fan file exists) left the fans below device/
+   out when both nestings were present; the code as it is reports them *)
+Theorem C19_fans_legacy_mixed_nesting_refuted :
+  exists direct nested d d', forallb kfanchip_ok direct = true /\ forallb kfanchip_ok nested = true /\
+    sensors_fans_legacy_tree true (fan_entries direct) (fan_entries nested) = Val d /\
     dict_get (bs "nct6775") d = None /\
-    spec_fans_of (bs "nct6775") (direct ++ nested) = [{| fr_label := bs "CPU Fan"; fr_cur := 1200 |}].
+    spec_fans_of (bs "nct6775") (direct ++ nested) = [{| fr_label := bs "CPU Fan"; fr_cur := 1200 |}] /\
+    sensors_fans true (fan_entries (direct ++ nested)) = Val d' /\
+    dict_get (bs "nct6775") d' = Some [{| fr_label := bs "CPU Fan"; fr_cur := 1200 |}].
 Proof. exact fans_mixed_nesting_refuted. Qed.
-Print Assumptions C19_fans_mixed_nesting_refuted.
+Print Assumptions C19_fans_legacy_mixed_nesting_refuted.
 
-(* the coretemp platform branch as coded: the names it appends never contribute a reading ... *)
-Theorem C19_coretemp_ignored : forall chips plat zones fahr, hwmon_entries chips <> [] ->
-  sensors_temperatures (hwmon_entries chips ++ coretemp_names plat) zones fahr
-  = sensors_temperatures (hwmon_entries chips) zones fahr.
-Proof. exact coretemp_ignored. Qed.
-Print Assumptions C19_coretemp_ignored.
+(* temperatures incl. the sensors visible only below /sys/devices/platform/coretemp.* ([plat]: those not already
+   listed below /sys/class/hwmon): every layout, same guarantees as C19_temps_values, class sensors first *)
+Theorem C19_temps_with_platform : forall chips plat zones fahr,
+  forallb kchip_ok chips = true -> forallb kchip_ok plat = true ->
+  hwmon_entries chips ++ hwmon_entries plat <> [] ->
+  exists d, sensors_temperatures (hwmon_entries chips ++ hwmon_entries plat) zones fahr = Val d /\
+    forall n, dict_get n d = match spec_temps_of fahr n (chips ++ plat) with [] => None | l => Some l end.
+Proof. exact temps_with_platform. Qed.
+Print Assumptions C19_temps_with_platform.
 
-(* known finding: ... so a readable coretemp sensor visible only below /sys/devices/platform is not reported,
-   and its files switch the thermal-zone fallback off *)
-Theorem C19_coretemp_platform_refuted :
+(* the code before commit 64999d5 appended the platform FILE names ([coretemp_names]): a readable coretemp sensor
+   visible only there was not reported and its files switched the thermal-zone fallback off *)
+Theorem C19_coretemp_legacy_refuted :
   exists plat zones, forallb kchip_ok plat = true /\ forallb kzone_ok zones = true /\
     sensors_temperatures (hwmon_entries [] ++ coretemp_names plat) (map zone_entry zones) false = Val [] /\
     spec_temps_of false (bs "coretemp") plat <> [] /\
     sensors_temperatures (hwmon_entries []) (map zone_entry zones) false <> Val [].
 Proof. exact coretemp_platform_refuted. Qed.
-Print Assumptions C19_coretemp_platform_refuted.
+Print Assumptions C19_coretemp_legacy_refuted.
 
 (* T5: one battery, every subset of energy_/charge_ now/full, power_/current_ now, capacity, status, AC0/AC:
    percent = 100*now/full (0 when full = 0) else capacity, None when neither; seconds = now*3600/power,
@@ -177,20 +182,21 @@ Theorem C19_cpu_count_front : forall r,
 Proof. exact cpu_count_front_spec. Qed.
 Print Assumptions C19_cpu_count_front.
 
-(* cpu_count(logical=True): sysconf; else the number of "processor : N" lines of every printed cpuinfo;
-   else the number of cpuN lines of every printed /proc/stat; else None.  Files with an other-line whose key
-   reads "processor..." when lower-cased (the ARM "Processor : <model>" line) are excluded: known finding *)
+(* cpu_count(logical=True): sysconf; else the number of "processor : N" lines of EVERY printed cpuinfo (x86, ARM,
+   with or without the "Processor : <model>" line); else the number of cpuN lines of every printed /proc/stat; else None *)
 Theorem C19_cpu_count_logical : forall sysconf blocks stat,
-  cpuinfo_ok blocks = true -> no_processor_like blocks = true -> forallb statline_ok stat = true ->
+  cpuinfo_ok blocks = true -> forallb statline_ok stat = true ->
   cpu_count_logical sysconf (FC (k_cpuinfo blocks)) (FC (k_stat stat)) = Val (spec_logical sysconf blocks stat).
 Proof. exact cpu_count_logical_spec. Qed.
 Print Assumptions C19_cpu_count_logical.
 
-Theorem C19_cpu_count_arm_header_refuted :
+(* the code before commit d196a16 ([cpu_count_logical_at true], lower-cased match) counted the ARM model line *)
+Theorem C19_cpu_count_legacy_arm_header_refuted :
   exists blocks, cpuinfo_ok blocks = true /\ n_processors blocks = 2 /\
-    cpu_count_logical None (FC (k_cpuinfo blocks)) (FC []) = Val (Some 3).
+    cpu_count_logical_at true None (FC (k_cpuinfo blocks)) (FC []) = Val (Some 3) /\
+    cpu_count_logical None (FC (k_cpuinfo blocks)) (FC []) = Val (Some 2).
 Proof. exact cpu_count_arm_header_refuted. Qed.
-Print Assumptions C19_cpu_count_arm_header_refuted.
+Print Assumptions C19_cpu_count_legacy_arm_header_refuted.
 
 (* cpu_count(logical=False), topology files present: the number of distinct sibling sets *)
 Theorem C19_cpu_count_cores_lists : forall texts cpuinfo, texts <> [] -> forallb text_ok texts = true ->
